@@ -9,6 +9,7 @@ import (
 	"fmt"
 	"go/token"
 	"go/types"
+	"os"
 	"strings"
 
 	"golang.org/x/tools/go/ssa"
@@ -87,12 +88,58 @@ func findServeLoop(p *Prog) (fn *ssa.Function, call *ssa.Call, header *ssa.Basic
 	return fn, call, header, ""
 }
 
-func (p *Prog) serveLoop() *serveResult {
-	if p.serve != nil {
-		return p.serve
+// serveFamily is one exploration of the serve loop: the rules it decides and the
+// event bits those rules need. Families are explored separately so that the
+// state space of each is the CFG times a handful of bits.
+type serveFamily struct {
+	name     string
+	rules    []string // "C02|R1a" prefixes of the check keys it owns
+	mask     uint64
+	state    bool // tracks the ConnState automaton in N[0]
+	carried  bool // tracks loop-carried variable staleness
+	readers  bool // tracks reader-call bits
+	keepInts bool
+}
+
+func (f *serveFamily) owns(key string) bool {
+	for _, r := range f.rules {
+		if strings.HasPrefix(key, r+"|") {
+			return true
+		}
+	}
+	return false
+}
+
+func (f *serveFamily) serves(prop string) bool {
+	for _, r := range f.rules {
+		if strings.HasPrefix(r, prop+"|") {
+			return true
+		}
+	}
+	return false
+}
+
+var serveFamilies = []*serveFamily{
+	{name: "errors", rules: []string{"C01|R2a", "C01|R2b"}, mask: evReadLoopPending | evErrResp, readers: true},
+	{name: "body", rules: []string{"C02|R1a", "C02|R1b", "C02|R2"}, mask: evMayCont | evContRead | evRespClose | evHandler | evStreamChecked | evWrote},
+	{name: "close", rules: []string{"C10|R2a", "C10|R2b", "C10|R2c"}, mask: evRespClose | evNotHTTP11 | evKeepAliveHdr},
+	{name: "carried", rules: []string{"C11|R-loop", "C11|R-reset"}, mask: evHandler | evReqReset | evRespReset, carried: true},
+	{name: "connstate", rules: []string{"C14|R1", "C14|R2"}, mask: evByteOK | evHandler, state: true},
+	{name: "shutdown", rules: []string{"C15|R3", "C15|R4"}, mask: evHandler | evWrote | evStopChecked | evIdleZero | evIdleMarked},
+	{name: "timeout", rules: []string{"C16|R1", "C16|R2"}, mask: evTimeoutT | evFreshCtx | evCopied},
+	{name: "hijack", rules: []string{"C17|R1", "C17|R3", "C17|R4"}, mask: evWrote | evFlushedAfterWrite | evHijackGo | evHijackNoResp},
+	{name: "head", rules: []string{"C03|R4"}, mask: evHandler | evHeadTested | evIsHead | evHeadSkip},
+}
+
+func (p *Prog) serveLoop(prop string) *serveResult {
+	if p.serve == nil {
+		p.serve = map[string]*serveResult{}
+	}
+	if r := p.serve[prop]; r != nil {
+		return r
 	}
 	res := &serveResult{counts: map[string]int{}}
-	p.serve = res
+	p.serve[prop] = res
 	add := func(prop, rule, construct string, ok bool, pos, detail string, w ...string) {
 		res.findings = append(res.findings, finding{prop: prop, rule: rule, construct: construct, ok: ok, pos: pos, detail: detail, witness: w})
 	}
@@ -272,7 +319,21 @@ func (p *Prog) serveLoop() *serveResult {
 	viols := map[string]*viol{}
 	seenOb := map[string]int{}
 	var x *Explorer
+	var cur *serveFamily
+	setb := func(st *State, bit uint64) {
+		if cur.mask&bit != 0 || (cur.readers && bit >= evReaderBit0 && bit < 1<<39) || (cur.carried && bit >= 1<<40) {
+			st.Set(bit)
+		}
+	}
+	setN := func(st *State, v int8) {
+		if cur.state {
+			st.N[0] = v
+		}
+	}
 	check := func(key string, ok bool, st *State, pos token.Pos, detail string) {
+		if !cur.owns(key) {
+			return
+		}
 		seenOb[key]++
 		if ok {
 			return
@@ -321,7 +382,7 @@ func (p *Prog) serveLoop() *serveResult {
 						bad = "conn." + c.Common().Method.Name()
 					}
 					if bad != "" {
-						check("C17|R3|no server use of the connection after the hijack hand-off: "+bad, false, st, in.Pos(), "after 'go hijackConnHandler' the serve function performed "+bad)
+						check("C17|R3|no server use of the connection or the ctx after the hijack hand-off", false, st, in.Pos(), "after 'go hijackConnHandler' the serve function performed "+bad)
 					}
 				}
 			}
@@ -330,7 +391,7 @@ func (p *Prog) serveLoop() *serveResult {
 				st.Clear(evRespClose | evKeepAliveHdr | evHeadSkip)
 				if sv := in.(*ssa.Store).Val; sv == lastAcquire || isCallResultOf(sv, fAcquireCtx) {
 					if st.Has(evTimeoutT) {
-						st.Set(evFreshCtx)
+						setb(st, evFreshCtx)
 					}
 				}
 			}
@@ -338,7 +399,7 @@ func (p *Prog) serveLoop() *serveResult {
 				// ctx.Response.SkipBody = true
 				if _, fv := fieldOfAddr(stt.Addr); fv != nil && fv.Name() == "SkipBody" {
 					if c, isC := stt.Val.(*ssa.Const); isC && c.Value != nil && c.Value.ExactString() == "true" {
-						st.Set(evHeadSkip)
+						setb(st, evHeadSkip)
 					}
 				}
 			}
@@ -369,35 +430,35 @@ func (p *Prog) serveLoop() *serveResult {
 					"the per-connection idle timestamp is not known to be zero when the handler is dispatched, so Shutdown's idle closer may close a busy connection")
 				// C14: handler runs in Active state
 				check("C14|R1|handler runs in StateActive", stateOf(st) == 1, st, in.Pos(), "handler dispatched while the reported ConnState is not Active")
-				st.Set(evHandler)
+				setb(st, evHandler)
 			case isCallTo(c, fMayContinue):
 			case isCallTo(c, fContRead), isCallTo(c, fContReadS):
-				st.Set(evContRead)
-				st.Set(readerBit(cv))
+				setb(st, evContRead)
+				setb(st, readerBit(cv))
 			case isCallTo(c, fHdrRead):
 				st.Clear(evReadLoopPending)
-				st.Set(readerBit(cv))
+				setb(st, readerBit(cv))
 			case isCallTo(c, fReadLoop):
-				st.Set(evReadLoopPending)
+				setb(st, evReadLoopPending)
 			case isCallTo(c, fParseURI), isCallTo(c, fReadLimit), isCallTo(c, fReadStream):
-				st.Set(readerBit(cv))
+				setb(st, readerBit(cv))
 			case isCallTo(c, fSetConnClose):
 				if strings.Contains(fieldPath(c.Common().Args[0]), "Response") {
-					st.Set(evRespClose)
+					setb(st, evRespClose)
 				}
 			case isCallTo(c, fSetNonSpecial):
 				if len(c.Common().Args) >= 3 && globalOf(c.Common().Args[1]) == "strConnection" && globalOf(c.Common().Args[2]) == "strKeepAlive" {
-					st.Set(evKeepAliveHdr)
+					setb(st, evKeepAliveHdr)
 				}
 			case isCallTo(c, fWriteErr):
-				st.Set(evErrResp)
+				setb(st, evErrResp)
 			case isCallTo(c, fAcquireCtx):
 				if inL[b] {
 					lastAcquire = cv
 				}
 			case isCallTo(c, fRespCopyTo):
 				if st.Has(evTimeoutT) {
-					st.Set(evCopied)
+					setb(st, evCopied)
 				}
 			case isCallTo(c, fReleaseCtx):
 				if st.Has(evTimeoutT) && !st.Has(evFreshCtx) {
@@ -405,9 +466,9 @@ func (p *Prog) serveLoop() *serveResult {
 						"releaseCtx is reachable on the timeout path before the ctx was exchanged for a fresh one: the late handler would share a pooled ctx")
 				}
 			case isCallTo(c, fReqReset):
-				st.Set(evReqReset)
+				setb(st, evReqReset)
 			case isCallTo(c, fRespReset):
-				st.Set(evRespReset)
+				setb(st, evRespReset)
 			case isCallTo(c, fWriteResp):
 				// C02.R1a
 				if st.Has(evMayCont) && !st.Has(evContRead) {
@@ -438,7 +499,7 @@ func (p *Prog) serveLoop() *serveResult {
 					}
 				}
 				check("C14|R1|response written in StateActive", stateOf(st) == 1, st, in.Pos(), "response written while the reported state is not Active")
-				st.Set(evWrote)
+				setb(st, evWrote)
 				st.Clear(evFlushedAfterWrite)
 			case isCallTo(c, fRelStream):
 				if inL[b] {
@@ -446,14 +507,14 @@ func (p *Prog) serveLoop() *serveResult {
 						"releaseRequestStream is reachable inside the loop on a path where fullyRead() was not consulted with outcome true")
 				}
 			case isCallTo(c, fAcqByte):
-				st.Set(evByteOK)
+				setb(st, evByteOK)
 			case isCallTo(c, fHijack):
 				if _, isGo := in.(*ssa.Go); isGo {
 					// C17.R1 response flushed first unless suppressed
 					check("C17|R1|hijack hand-off happens after the response was written and flushed (unless suppressed)",
 						st.Has(evHijackNoResp) || (st.Has(evWrote) && st.Has(evFlushedAfterWrite)), st, in.Pos(),
 						"go hijackConnHandler is reachable with the response not written+flushed and HijackSetNoResponse not in effect")
-					st.Set(evHijackGo)
+					setb(st, evHijackGo)
 				}
 			case isCallTo(c, fSetState):
 				if k, okk := constInt(c.Common().Args[2]); okk {
@@ -462,10 +523,10 @@ func (p *Prog) serveLoop() *serveResult {
 						check("C14|R1|StateActive follows StateNew or StateIdle", stateOf(st) == 0 || stateOf(st) == 2, st, in.Pos(), "StateActive reported twice in a row")
 						check("C14|R2|StateActive only after a byte was received", st.Has(evByteOK) && byteOK(xx, st, byteCalls), st, in.Pos(),
 							"StateActive is reachable on a path where no read of at least one byte has succeeded in this iteration")
-						st.N[0] = 1
+						setN(st, 1)
 					case 2: // StateIdle
 						check("C14|R1|StateIdle follows StateActive", stateOf(st) == 1, st, in.Pos(), "StateIdle reported while the state is not Active")
-						st.N[0] = 2
+						setN(st, 2)
 					default:
 						check("C14|R1|serve loop reports only Active/Idle", false, st, in.Pos(), fmt.Sprintf("setState(%d) inside the serve function", k))
 					}
@@ -476,23 +537,23 @@ func (p *Prog) serveLoop() *serveResult {
 					switch {
 					case f.Name() == "Load" && strings.HasSuffix(fieldPath(c.Common().Args[0]), "stop"):
 						if st.Has(evWrote) || st.Has(evHandler) {
-							st.Set(evStopChecked)
+							setb(st, evStopChecked)
 						}
 					case f.Name() == "Store" && recvTypeName(f) == "Int64" && f.Pkg != nil && f.Pkg.Pkg.Path() == "sync/atomic":
 						if k, okk := constInt(c.Common().Args[1]); okk && k == 0 {
-							st.Set(evIdleZero)
+							setb(st, evIdleZero)
 						} else {
 							st.Clear(evIdleZero)
 							if st.Has(evWrote) || st.Has(evHandler) {
-								st.Set(evIdleMarked)
+								setb(st, evIdleMarked)
 							}
 						}
 					case f.Name() == "Flush" && recvTypeName(f) == "Writer":
 						if st.Has(evWrote) {
-							st.Set(evFlushedAfterWrite)
+							setb(st, evFlushedAfterWrite)
 						}
 					case f.Name() == "Peek" && recvTypeName(f) == "Reader":
-						st.Set(evByteOK)
+						setb(st, evByteOK)
 					}
 				}
 			}
@@ -504,22 +565,22 @@ func (p *Prog) serveLoop() *serveResult {
 				switch {
 				case isCallTo(c, fMayContinue):
 					if tk {
-						st.Set(evMayCont)
+						setb(st, evMayCont)
 					}
 				case isCallTo(c, fFullyRead):
 					if tk {
-						st.Set(evStreamChecked)
+						setb(st, evStreamChecked)
 					}
 				case isCallTo(c, fIsHead):
 					if st.Has(evHandler) {
-						st.Set(evHeadTested)
+						setb(st, evHeadTested)
 						if tk {
-							st.Set(evIsHead)
+							setb(st, evIsHead)
 						}
 					}
 				case isCallTo(c, fIsHTTP11):
 					if !tk && strings.Contains(fieldPath(c.Call.Args[0]), "Request") {
-						st.Set(evNotHTTP11)
+						setb(st, evNotHTTP11)
 					}
 				}
 			}
@@ -527,7 +588,7 @@ func (p *Prog) serveLoop() *serveResult {
 			if ex, ok := v.(*ssa.Extract); ok && ex.Index == 1 {
 				if ta, ok := ex.Tuple.(*ssa.TypeAssert); ok && strings.HasSuffix(ta.AssertedType.String(), "requestStream") {
 					if !tk && st.Has(evHandler) && !st.Has(evWrote) {
-						st.Set(evStreamChecked)
+						setb(st, evStreamChecked)
 					}
 				}
 			}
@@ -540,14 +601,14 @@ func (p *Prog) serveLoop() *serveResult {
 				if _, fv := loadedField(o); fv != nil && fv.Name() == "timeoutResponse" && inL[from] {
 					nonNil := tk == (bo.Op == token.NEQ)
 					if nonNil {
-						st.Set(evTimeoutT)
+						setb(st, evTimeoutT)
 					}
 				}
 			}
 			// hijackNoResponse: the condition guarding the response write block
 			if hijackNoRespCond != nil && cond == hijackNoRespCond {
 				if taken == hijackNoRespPolarity {
-					st.Set(evHijackNoResp)
+					setb(st, evHijackNoResp)
 				}
 			}
 		},
@@ -575,6 +636,12 @@ func (p *Prog) serveLoop() *serveResult {
 					check("C10|R2a|no further request when the close decision is true", xx.Eval(st, closeCond) != True, st, hcall.Pos(),
 						"the loop continues although the close decision evaluates to true")
 				}
+				st.Ev &^= iterBits
+				st.Clear(evHijackNoResp)
+			}
+		},
+		PreEdge: func(xx *Explorer, st *State, from, to *ssa.BasicBlock) {
+			if to == header && inL[from] && cur.carried {
 				// C11.R-loop: dirty determination
 				for _, cv := range carriedVars {
 					if cv.bit == 0 {
@@ -587,165 +654,207 @@ func (p *Prog) serveLoop() *serveResult {
 						}
 					}
 					if !carriedClean(xx, st, cv.phi, op, cv.init) {
-						st.Set(cv.bit)
+						if os.Getenv("VDBG_CARRIED") == cv.name {
+							fmt.Printf("DIRTY %s op=%s (%s) eval=%v from block %d facts=%v ali=%v\n", cv.name, op.Name(), xx.Canon(op), xx.Eval(st, op), from.Index, st.facts, st.ali)
+						}
+						setb(st, cv.bit)
 					}
 				}
-				st.Ev &^= iterBits
-				st.Clear(evHijackNoResp)
 			}
 		},
 		Exit: func(xx *Explorer, st *State, ret *ssa.Return, pan *ssa.Panic) {
 			if ret == nil {
 				return
 			}
+			rr := returnResults(ret)
 			if st.Has(evHijackGo) {
-				ok := len(ret.Results) == 1 && globalOf(ret.Results[0]) == "errHijacked"
-				if !ok {
-					// through a phi?
-					ok = len(ret.Results) == 1 && xx.resolvesToGlobal(st, ret.Results[0], "errHijacked")
-				}
+				check("C17|R3|no server use of the connection or the ctx after the hijack hand-off", true, st, ret.Pos(), "")
+				ok := len(rr) == 1 && (globalOf(rr[0]) == "errHijacked" || xx.resolvesToGlobal(st, rr[0], "errHijacked"))
 				check("C17|R4|serve function reports errHijacked after the hand-off", ok, st, ret.Pos(), "return value after 'go hijackConnHandler' is not errHijacked, so callers would close the connection")
-			} else if len(ret.Results) == 1 {
-				check("C17|R4|errHijacked only after a hand-off", globalOf(ret.Results[0]) != "errHijacked" && !xx.resolvesToGlobal(st, ret.Results[0], "errHijacked"), st, ret.Pos(),
+			} else if len(rr) == 1 {
+				check("C17|R4|errHijacked only after a hand-off", globalOf(rr[0]) != "errHijacked" && !xx.resolvesToGlobal(st, rr[0], "errHijacked"), st, ret.Pos(),
 					"errHijacked returned on a path without 'go hijackConnHandler': callers would leave the connection open")
 			}
 		},
 	}
-	x = NewExplorer(p, fn, hooks)
-	x.MaxStates = 3000000
-	// values the hooks evaluate must stay alive
-	for _, rc := range readerCalls {
-		x.Track(rc)
-	}
-	for _, rl := range readLoopCalls {
-		x.Track(rl)
-	}
-	if closeCond != nil {
-		x.Track(closeCond)
-	}
-	// byte sources: error results of Peek / acquireByteReader
-	for _, b := range fn.Blocks {
-		for _, in := range b.Instrs {
-			if cv, ok := in.(*ssa.Call); ok {
-				f := cv.Call.StaticCallee()
-				if f == nil {
-					continue
-				}
-				if f == fAcqByte || (f.Name() == "Peek" && recvTypeName(f) == "Reader") {
-					for _, ref := range *cv.Referrers() {
-						if ex, ok := ref.(*ssa.Extract); ok && ex.Index == 1 {
-							byteCalls = append(byteCalls, ex)
-							x.Track(ex)
+	explore := func(fam *serveFamily) bool {
+		cur = fam
+		byteCalls = nil
+		x = NewExplorer(p, fn, hooks)
+		x.MaxStates = 3000000
+		// values the hooks evaluate must stay alive
+		if fam.readers {
+			for _, rc := range readerCalls {
+				x.Track(rc)
+			}
+			for _, rl := range readLoopCalls {
+				x.Track(rl)
+			}
+		}
+		if closeCond != nil && (fam.name == "body" || fam.name == "close") {
+			x.Track(closeCond)
+		}
+		// byte sources: error results of Peek / acquireByteReader
+		for _, b := range fn.Blocks {
+			for _, in := range b.Instrs {
+				if cv, ok := in.(*ssa.Call); ok {
+					f := cv.Call.StaticCallee()
+					if f == nil {
+						continue
+					}
+					if f == fAcqByte || (f.Name() == "Peek" && recvTypeName(f) == "Reader") {
+						for _, ref := range *cv.Referrers() {
+							if ex, ok := ref.(*ssa.Extract); ok && ex.Index == 1 {
+								byteCalls = append(byteCalls, ex)
+								if fam.state {
+									x.Track(ex)
+								}
+							}
 						}
 					}
 				}
 			}
 		}
-	}
-	res.counts["C14.R2 byte sources"] = len(byteCalls)
-	// the hijackNoResponse guard: the If controlling the block with writeResponse
-	allCalls(fn, func(b *ssa.BasicBlock, c ssa.CallInstruction) {
-		if isCallTo(c, fWriteResp) && inL[b] {
-			for d := b; d != nil; d = d.Idom() {
-				ifi := controllingIf(d)
-				if ifi == nil {
+		res.counts["C14.R2 byte sources"] = len(byteCalls)
+		// the hijackNoResponse guard: the If controlling the block with writeResponse
+		allCalls(fn, func(b *ssa.BasicBlock, c ssa.CallInstruction) {
+			if isCallTo(c, fWriteResp) && inL[b] {
+				for d := b; d != nil; d = d.Idom() {
+					ifi := controllingIf(d)
+					if ifi == nil {
+						continue
+					}
+					at := condAtoms(ifi.Cond)
+					if hasAtomContaining(at, "hijackNoResponse") {
+						hijackNoRespCond = ifi.Cond
+						// polarity that SKIPS the write block
+						hijackNoRespPolarity = ifi.Block().Succs[1] == d
+						if ifi.Block().Succs[0] == d {
+							hijackNoRespPolarity = false
+						} else {
+							hijackNoRespPolarity = true
+						}
+						return
+					}
+				}
+			}
+		})
+		// alias tracking for every phi a loop-carried variable can flow through
+		aliasPhis := map[*ssa.Phi]bool{}
+		carriedOf := map[ssa.Value]*carried{}
+		for _, cv := range carriedVars {
+			carriedOf[cv.phi] = cv
+			if cv.bit != 0 {
+				aliasPhis[cv.phi] = true
+			}
+		}
+		for changed := true; changed; {
+			changed = false
+			for _, b := range fn.Blocks {
+				for _, in := range b.Instrs {
+					phi, ok := in.(*ssa.Phi)
+					if !ok {
+						break
+					}
+					if aliasPhis[phi] {
+						continue
+					}
+					for _, e := range phi.Edges {
+						if ep, ok := e.(*ssa.Phi); ok && aliasPhis[ep] {
+							aliasPhis[phi] = true
+							changed = true
+						}
+					}
+				}
+			}
+		}
+		x.AliasPhis = aliasPhis
+		if fam.name == "hijack" {
+			// remember where the returned error came from
+			x.AliasPhis = map[*ssa.Phi]bool{}
+			var mark func(v ssa.Value)
+			mark = func(v ssa.Value) {
+				if ph, ok := v.(*ssa.Phi); ok && !x.AliasPhis[ph] {
+					x.AliasPhis[ph] = true
+					for _, e := range ph.Edges {
+						mark(e)
+					}
+				}
+			}
+			for _, b := range fn.Blocks {
+				if rt, ok := b.Instrs[len(b.Instrs)-1].(*ssa.Return); ok {
+					for _, rv := range returnResults(rt) {
+						mark(rv)
+					}
+				}
+			}
+		}
+		res.counts["C11.R-loop phis tracked for staleness"] = len(aliasPhis)
+		staleUse = func(xx *Explorer, st *State, in ssa.Instruction) {
+			if _, isPhi := in.(*ssa.Phi); isPhi {
+				return
+			}
+			if !inL[in.Block()] {
+				return
+			}
+			var rands []*ssa.Value
+			rands = in.Operands(rands)
+			for _, rp := range rands {
+				if rp == nil || *rp == nil {
 					continue
 				}
-				at := condAtoms(ifi.Cond)
-				if hasAtomContaining(at, "hijackNoResponse") {
-					hijackNoRespCond = ifi.Cond
-					// polarity that SKIPS the write block
-					hijackNoRespPolarity = ifi.Block().Succs[1] == d
-					if ifi.Block().Succs[0] == d {
-						hijackNoRespPolarity = false
-					} else {
-						hijackNoRespPolarity = true
-					}
-					return
-				}
-			}
-		}
-	})
-	// alias tracking for every phi a loop-carried variable can flow through
-	aliasPhis := map[*ssa.Phi]bool{}
-	carriedOf := map[ssa.Value]*carried{}
-	for _, cv := range carriedVars {
-		carriedOf[cv.phi] = cv
-		if cv.bit != 0 {
-			aliasPhis[cv.phi] = true
-		}
-	}
-	for changed := true; changed; {
-		changed = false
-		for _, b := range fn.Blocks {
-			for _, in := range b.Instrs {
-				phi, ok := in.(*ssa.Phi)
-				if !ok {
-					break
-				}
-				if aliasPhis[phi] {
+				ph, ok := (*rp).(*ssa.Phi)
+				if !ok || !aliasPhis[ph] {
 					continue
 				}
-				for _, e := range phi.Edges {
-					if ep, ok := e.(*ssa.Phi); ok && aliasPhis[ep] {
-						aliasPhis[phi] = true
-						changed = true
+				v := ssa.Value(ph)
+				for i := 0; i < 8; i++ {
+					if cv := carriedOf[v]; cv != nil {
+						if cv.bit != 0 && st.Has(cv.bit) {
+							check("C11|R-loop|per-request variable "+cv.name+" is re-assigned before it is read in a later iteration", false, st, in.Pos(),
+								"the value of '"+cv.name+"' computed while serving an earlier request is read while serving a later one")
+						} else if cv.bit != 0 {
+							check("C11|R-loop|per-request variable "+cv.name+" is re-assigned before it is read in a later iteration", true, st, in.Pos(), "")
+						}
+						break
 					}
-				}
-			}
-		}
-	}
-	x.AliasPhis = aliasPhis
-	res.counts["C11.R-loop phis tracked for staleness"] = len(aliasPhis)
-	staleUse = func(xx *Explorer, st *State, in ssa.Instruction) {
-		if _, isPhi := in.(*ssa.Phi); isPhi {
-			return
-		}
-		if !inL[in.Block()] {
-			return
-		}
-		var rands []*ssa.Value
-		rands = in.Operands(rands)
-		for _, rp := range rands {
-			if rp == nil || *rp == nil {
-				continue
-			}
-			ph, ok := (*rp).(*ssa.Phi)
-			if !ok || !aliasPhis[ph] {
-				continue
-			}
-			v := ssa.Value(ph)
-			for i := 0; i < 8; i++ {
-				if cv := carriedOf[v]; cv != nil {
-					if cv.bit != 0 && st.Has(cv.bit) {
-						check("C11|R-loop|per-request variable "+cv.name+" is re-assigned before it is read in a later iteration", false, st, in.Pos(),
-							"the value of '"+cv.name+"' computed while serving an earlier request is read while serving a later one")
-					} else if cv.bit != 0 {
-						check("C11|R-loop|per-request variable "+cv.name+" is re-assigned before it is read in a later iteration", true, st, in.Pos(), "")
+					k, has := st.ali[xx.Canon(v)]
+					if !has {
+						break
 					}
-					break
+					nv := xx.byKey[k]
+					if nv == nil {
+						break
+					}
+					v = nv
 				}
-				k, has := st.ali[xx.Canon(v)]
-				if !has {
-					break
-				}
-				nv := xx.byKey[k]
-				if nv == nil {
-					break
-				}
-				v = nv
 			}
 		}
-	}
-	x.Run(nil)
-	res.counts["serve loop states explored"] = x.States
-	res.counts["serve loop edges explored"] = x.Edges
-	if x.Aborted {
-		for _, pr := range allProps {
-			undec(pr, "serve", "serve loop exploration", "state budget exhausted")
+		x.Filter = noConfigFilter
+		if fam.carried {
+			x.Filter = noIntFilter
+			trackConfigNilTests(x)
 		}
-		return res
+		x.Run(nil)
+		res.counts["serve loop states explored ["+fam.name+"]"] = x.States
+		res.counts["serve loop edges explored ["+fam.name+"]"] = x.Edges
+		if x.Aborted {
+			for _, r := range fam.rules {
+				parts := strings.SplitN(r, "|", 2)
+				undec(parts[0], parts[1], "serve loop exploration ("+fam.name+")", "state budget exhausted")
+			}
+			return false
+		}
+		return true
 	}
+	nfam := 0
+	for _, fam := range serveFamilies {
+		if fam.serves(prop) {
+			nfam++
+			explore(fam)
+		}
+	}
+	res.counts["serve loop rule families explored"] = nfam
 	// carried-variable uses: a second, cheap pass is folded into the same exploration through cv.bit;
 	// uses are checked structurally here: a non-exempt carried variable may only be used by phis
 	for _, cv := range carriedVars {
@@ -783,6 +892,7 @@ func (p *Prog) serveLoop() *serveResult {
 		"C14|R1|StateIdle follows StateActive",
 		"C17|R1|hijack hand-off happens after the response was written and flushed (unless suppressed)",
 		"C17|R4|serve function reports errHijacked after the hand-off",
+		"C17|R3|no server use of the connection or the ctx after the hijack hand-off",
 		"C16|R1|timeout response is written from a fresh ctx holding a private copy",
 		"C10|R2b|close decision puts Connection: close on the response that is written",
 		"C10|R2c|HTTP/1.0 keep-alive response carries Connection: keep-alive",
@@ -791,14 +901,20 @@ func (p *Prog) serveLoop() *serveResult {
 		"C03|R4|HEAD response is written with SkipBody",
 	}
 	for _, k := range mustSee {
-		if seenOb[k] == 0 {
+		ran := false
+		for _, fam := range serveFamilies {
+			if fam.owns(k) && fam.serves(prop) {
+				ran = true
+			}
+		}
+		if ran && seenOb[k] == 0 {
 			parts := strings.SplitN(k, "|", 3)
 			undec(parts[0], parts[1], parts[2], "no explored path reached this obligation: the rule's anchors no longer match the serve loop")
 		}
 	}
 
 	// ---- C10.R1: the close decision depends on every documented source ----
-	if closeCond != nil {
+	if closeCond != nil && prop == "C10" {
 		at := condAtoms(closeCond)
 		req := []struct{ name, sub string }{
 			{"Server.DisableKeepalive", "field:Server.DisableKeepalive"},
@@ -944,5 +1060,33 @@ func (res *serveResult) report(r *Report, prop string) {
 	r.Notes = append(r.Notes, res.notes...)
 	if n == 0 {
 		r.Undecided("serve", "serve loop obligations", "the serve loop exploration produced no obligation for this property")
+	}
+}
+
+// trackConfigNilTests makes the explorer remember the outcome of every nil
+// test of a field loaded from a parameter (write-once configuration such as
+// s.HeaderReceived), so that the same test correlates across loop iterations.
+func trackConfigNilTests(x *Explorer) {
+	for _, b := range x.Fn.Blocks {
+		ifi, ok := b.Instrs[len(b.Instrs)-1].(*ssa.If)
+		if !ok {
+			continue
+		}
+		_, v := stripNot(ifi.Cond)
+		bo, ok := v.(*ssa.BinOp)
+		if !ok || (bo.Op != token.EQL && bo.Op != token.NEQ) {
+			continue
+		}
+		o := bo.X
+		if isNilConst(bo.X) {
+			o = bo.Y
+		} else if !isNilConst(bo.Y) {
+			continue
+		}
+		if base, fv := loadedField(o); fv != nil {
+			if _, isParam := base.(*ssa.Parameter); isParam {
+				x.Track(o)
+			}
+		}
 	}
 }
